@@ -54,15 +54,15 @@ let normal__brk: UVec;
 >>>
 //@loop 0
         invariant
-            tmp_nodes.tv() == t0, tmp_nodes.allocated() == a0,
+            tmp_nodes.tv() == t0, tmp_nodes.allocated() == a0, tmp_nodes.rm() == old(tmp_nodes).rm(),
             0 <= remaining_attempts <= 3,
             item_indices@ == items, items.subset_of(reader.leafs.ids()),
         ensures
             split_ok(children_left@, children_right@, items, normal__brk.vv(), reader.leafs),
-            tmp_nodes.tv() == t0, tmp_nodes.allocated() == a0,
+            tmp_nodes.tv() == t0, tmp_nodes.allocated() == a0, tmp_nodes.rm() == old(tmp_nodes).rm(),
 //@loop 1
         invariant
-            iter__0.seq@ == bm_seq(items), 0 <= iter__0.pos@ <= iter__0.seq@.len(),
+            iter__0.seq@ == bm_seq(items), 0 <= iter__0.pos@ <= iter__0.seq@.len(), tmp_nodes.rm() == old(tmp_nodes).rm(),
             items.subset_of(reader.leafs.ids()),
             part_ok(children_left@, children_right@, iter__0.seq@, iter__0.pos@, normal.vv(), reader.leafs),
         ensures
@@ -112,14 +112,7 @@ let normal__brk: UVec;
         let ghost tr = tmp_nodes.tv(); let ghost ar = tmp_nodes.allocated();
 //@hint before <<<Ok((NodeId::tree(new_node_id), l + r + 1))>>>
         proof { lemma_mk_split(m, u0, t0, tl, tr, tmp_nodes.tv(), a0, al, ar, tmp_nodes.allocated(), items, lset, rset, cap, left, right, l, r, new_node_id, normal.normal.vv(), reader.leafs); }
-//@spec
-    requires
-        item_indices@.subset_of(reader.leafs.ids()),
-        tmp_inv(reader.trees.snap(), reader.concurrent_node_ids.used0(), old(tmp_nodes).tv(), old(tmp_nodes).allocated()),
-    ensures
-        r matches Ok((new, count)) ==> mk_post(reader.trees.snap(), reader.concurrent_node_ids.used0(), old(tmp_nodes).tv(), final(tmp_nodes).tv(),
-            old(tmp_nodes).allocated(), final(tmp_nodes).allocated(), item_indices@, cap_of(opt, self.dimensions), new, count, reader.leafs),
-        r matches Err(e) ==> build_err(e),
+//@specfile lib/contracts/make_tree_in_file.spec
 //@end
 }
 
